@@ -4,6 +4,7 @@ C12 — Meta cascades to nested classes with documented priority unless recursiv
 import DW.Generated.Tables
 import DW.Model.Dump
 import DW.Model.Load
+import DW.Model.LoadV1
 
 namespace DW.Props.C12
 open DW
@@ -90,5 +91,82 @@ theorem C12_nested_load (std : Std) (cfg : Option MetaCfg) (ci : ClassInfo) (fty
     loadD std cfg (.cls ci ftys) o
       = loadClassWith (fun f v => loadField std cfg f v ftys) (effMeta ci.cmeta cfg) ci o := by
   simp [loadD]
+
+/-! ### v1 engine
+
+`load_func_for_dataclass` (v1) keeps the root's config in `extras['config']` for the whole generation; a nested class does
+`meta = meta | config` for *itself* and hands `extras` on unchanged. -/
+
+/-- the main class of a v1 load runs under its own Meta and hands down `rootConfig` (nothing with recursive=False) -/
+theorem C12_v1_root (std : Std) (ci : ClassInfo) (ftys : List (S × Ty)) (o : JVal) :
+    fromdictV1 std (.cls ci ftys) o
+      = v1ClassWith (fun f v => v1Field std (rootConfig ci.cmeta) f v ftys) (effMeta ci.cmeta none) ci o := by
+  simp [fromdictV1]
+
+/-- a nested dataclass reached with travelling config `cfg` is loaded under merge(own, cfg) — and its own fields are again
+converted under `cfg` itself, not under the merge: what a class sets for itself stops at that class -/
+theorem C12_v1_nested_load (std : Std) (cfg : Option MetaCfg) (ci : ClassInfo) (ftys : List (S × Ty)) (o : JVal) :
+    loadV1 std cfg (.cls ci ftys) o
+      = v1ClassWith (fun f v => v1Field std cfg f v ftys) (effMeta ci.cmeta cfg) ci o := by
+  simp [loadV1]
+
+/-- the config travels unchanged through Optional, lists / sets / deques, variadic tuples and dict keys / values -/
+theorem C12_v1_config_travels (std : Std) (cfg : Option MetaCfg) (t kt vt : Ty) (k : SeqKind) (mk : MapKind)
+    (o : JVal) (xs : List JVal) (kvs : List (S × JVal)) (hnn : o.kind ≠ .null) :
+    loadV1 std cfg (.optional t) o = loadV1 std cfg t o ∧
+    loadV1 std cfg (.seq k t) (.list xs) = (do
+      let ys ← mapME (fun x => loadV1 std cfg t x) xs
+      (mkSeq k ys).mapError v1Wrap) ∧
+    loadV1 std cfg (.vtuple t) (.list xs) = (do
+      let ys ← mapME (fun x => loadV1 std cfg t x) xs
+      pure (.tuple ys)) ∧
+    loadV1 std cfg (.map mk kt vt) (.dict kvs) = (do
+      let ps ← mapME (fun (kv : S × JVal) => do
+          let k' ← loadV1 std cfg kt (.str kv.1)
+          let v' ← loadV1 std cfg vt kv.2
+          pure (k', v')) kvs
+      (mkMap mk ps).mapError v1Wrap) := by
+  refine ⟨?_, by simp [loadV1, jIter], by simp [loadV1, jIter], by simp [loadV1]⟩
+  cases o <;> simp [loadV1, JVal.kind] at hnn ⊢
+
+/-- Two levels down (root → mid → leaf): the function generated for the leaf field of `mid` runs under
+merge(leaf's own Meta, the ROOT's config). `mid`'s Meta does not occur in it — whatever `mid` sets for itself
+(unknown-key policy, key case, tag key, …) never reaches the leaf. -/
+theorem C12_v1_two_levels_down (std : Std) (root mid leaf : ClassInfo) (g : S) (lf : List (S × Ty)) (kvs : List (S × JVal)) :
+    loadV1 std (rootConfig root.cmeta) (.cls mid [(g, .cls leaf lf)]) (.dict kvs)
+      = v1ClassWith (fun f v => if g == f then
+            v1ClassWith (fun f' v' => v1Field std (rootConfig root.cmeta) f' v' lf)
+              (effMeta leaf.cmeta (rootConfig root.cmeta)) leaf v
+          else .error (.unsupported "field without type".toList))
+        (effMeta mid.cmeta (rootConfig root.cmeta)) mid (.dict kvs) := by
+  simp only [loadV1]
+  congr 1
+
+/-- the v1 settings a class ends up with under a recursive root: its own, else the root's — in closed form -/
+theorem C12_v1_effective_settings (own : Option MetaCfg) (r : MetaCfg) (h : r.recursive ≠ some false) :
+    (effMeta own (rootConfig (some r))).v1OnUnknown = ((own.bind (·.v1OnUnknown)) <|> r.v1OnUnknown) ∧
+    (effMeta own (rootConfig (some r))).v1KeyCase = ((own.bind (·.v1KeyCase)) <|> r.v1KeyCase) ∧
+    (effMeta own (rootConfig (some r))).tagKey = ((own.bind (·.tagKey)) <|> r.tagKey) ∧
+    (effMeta own (rootConfig (some r))).tag = own.bind (·.tag) := by
+  rw [C12_recursive_default r h]
+  cases own <;> simp [effMeta, MetaCfg.orElse]
+
+/-- ... and with recursive=False on the root: its own only -/
+theorem C12_v1_effective_settings_nonrecursive (own : Option MetaCfg) (r : MetaCfg) (h : r.recursive = some false) :
+    (effMeta own (rootConfig (some r))).v1OnUnknown = own.bind (·.v1OnUnknown) ∧
+    (effMeta own (rootConfig (some r))).v1KeyCase = own.bind (·.v1KeyCase) := by
+  rw [(C12_recursive_false r h own).1]
+  cases own <;> simp [effMeta]
+
+/-- Example (the shape of a two-level regression): root without policy, `mid` with v1_on_unknown_key = RAISE for itself, leaf
+without Meta. An unknown key inside the leaf is ignored; the same key inside `mid` is rejected, naming `mid`. -/
+theorem C12_v1_mid_policy_stops_at_mid (std : Std) :
+    let leaf : Ty := .cls { name := ['L'], fields := [{ name := ['a'] }] } [(['a'], .any)]
+    let mid : Ty := .cls { name := ['M'], fields := [{ name := ['l'] }], cmeta := some { v1OnUnknown := some .raise } } [(['l'], leaf)]
+    let root : Ty := .cls { name := ['R'], fields := [{ name := ['m'] }], cmeta := some { v1 := some true } } [(['m'], mid)]
+    (∃ y, fromdictV1 std root (.dict [(['m'], .dict [(['l'], .dict [(['a'], .int 1), (['z'], .int 2)])])]) = .ok y) ∧
+    fromdictV1 std root (.dict [(['m'], .dict [(['l'], .dict [(['a'], .int 1)]), (['z'], .int 2)])])
+      = .error (.unknownKeys ['M'] [['z']]) := by
+  refine ⟨⟨_, rfl⟩, rfl⟩
 
 end DW.Props.C12
